@@ -115,12 +115,7 @@ def run(replay=None):
             if kind in ('widen', 'narrow'):
                 # replace the stored scalars by values aimed at the conversion
                 m = int(a.split('/')[-1].split('.')[1])
-                # tokens end with: len, then len*m scalars
-                n = 0
-                for i in range(len(toks)):
-                    # find the array length token: the last position i with toks[i]*m == len(toks)-i-1
-                    if toks[i] * m == len(toks) - i - 1:
-                        n = i
+                n = sc.cfg_token_count(a)
                 ln = toks[n]
                 vals = narrow_values(r, ln * m) if kind == 'narrow' else widen_values(r, ln * m)
                 toks = toks[:n + 1] + vals
